@@ -91,7 +91,10 @@ class Ctx:
         # floors
         for rule, floor in self.floors.items():
             n = sum(1 for i in self.instances if i['rule'] == rule)
-            if n < floor:
+            failing = sum(1 for i in self.instances if i['rule'] == rule and not i['ok'])
+            # a rule that reports a violation has matched the construct it is about; the floor only
+            # guards against rules that pass vacuously
+            if n < floor and not failing:
                 raise CheckerError('rule %s matched %d instances, floor is %d (vacuous rule)'
                                    % (rule, n, floor))
         viols = [i for i in self.instances if not i['ok']]
